@@ -306,7 +306,7 @@ pub fn run_c19(ctx: &mut Ctx) {
                     .join(" ")
             })
             .collect();
-        let n = [2usize, 4, 60, 124][ctx.rng.random_range(0..4)];
+        let n = [0usize, 1, 2, 4, 60, 124, 128][ctx.rng.random_range(0..7)];
         let norm = ctx.rng.random_bool(0.5);
         let threads = [0u8, 1, 3][ctx.rng.random_range(0..3)];
         // one file and no limit for half of the corpora; otherwise 2-3 files and / or max_lines_per_file
